@@ -287,7 +287,7 @@ def run_shard(prop, tier, seed, shard, nshards, only_index=None):
                 else:
                     out['nviol'] += 1
                     sig = '%s|%s|%s' % (case.get('op') or case.get('form') or case.get('sel') or case.get('fn') or case.get('view') or case.get('kind'), v.get('fn') or v.get('kind'),
-                                        (v.get('detail') or v.get('mode') or '')[:60])
+                                        (v.get('detail') or v.get('mode') or '')[:60] + ((' src=%s enc=%s app=%s' % (v.get('source'), v.get('encoding'), v.get('appends'))) if 'source' in v else ''))
                     out['vsig'][sig] = out['vsig'].get(sig, 0) + 1
                     if len(out['violations']) < MAX_STORED_VIOLATIONS:
                         out['violations'].append({'index': i, 'case': repr(case), 'violation': jsonable(v)})
